@@ -470,3 +470,17 @@ def selftest(ctx):
     if good or not rej:
         raise core.Infra("C30 self-test failed: good=%s rejected=%s" % (good, rej))
     ctx.extra["selftest"] = "corrupted popped value rejected: %s" % rej[0]["sig"]
+    # the same for the sub-queue monitor
+    evs, rc, err = core.run_probe(binaries()["asan"], "uspsc 2 UUUOUUOOOOO\nquit\n", build.run_env("asan"), timeout=120)
+    if rc != 0 or not evs or evs[0]["e"] != "Reset":
+        raise core.Infra("C30 self-test: uspsc run failed (rc %d)" % rc)
+    good, _, _ = tlc.validate_execs("T_USpsc.tla", "T_USpsc.cfg", [evs], ctx.workdir, "c30self2", chunks=1)
+    bad = json.loads(json.dumps(evs))
+    for e in bad:
+        if e["e"] == "SPop" and e.get("ok") and e["v"] == 3:
+            e["v"] = 4
+            break
+    rej, _, _ = tlc.validate_execs("T_USpsc.tla", "T_USpsc.cfg", [bad], ctx.workdir, "c30self3", chunks=1)
+    if good or not rej:
+        raise core.Infra("C30 sub-queue self-test failed: good=%s rejected=%s" % (good, rej))
+    ctx.extra["selftest_subqueue"] = "corrupted popped value rejected: %s" % rej[0]["sig"]
